@@ -80,8 +80,10 @@ class Runner:
         i = spec["shard"]
         flavour = spec.get("flavour", "plain")
         spec = dict(spec)
-        spec.update(property=self.prop, module=self.modname, tier=self.tier, seed=self.seed,
-                    overlay=overlays[flavour])
+        # a spec may borrow the workload of another monitor ("foreign": C17 re-runs other monitors' hostile workloads
+        # on the sanitised build; only sanitizer reports / crashes of such shards are judged, see aggregate)
+        spec.update(property=self.prop if not spec.get("foreign") else spec["foreign_property"],
+                    module=spec.get("module", self.modname), tier=self.tier, seed=self.seed, overlay=overlays[flavour])
         base = os.path.join(self.work, "s%03d" % i)
         spec_path, res_path, oplog = base + ".spec.json", base + ".res.json", base + ".oplog"
         json.dump(spec, open(spec_path, "w"))
@@ -107,7 +109,10 @@ class Runner:
             status["returncode"] = None
             status["timeout"] = True
         status["wall_s"] = round(time.time() - t0, 2)
-        status["stderr_tail"] = open(errpath, errors="replace").read()[-3000:]
+        full = open(errpath, errors="replace").read()
+        status["stderr_tail"] = full[-3000:]
+        i = full.find("Fatal Python error")
+        status["fatal"] = full[i:i + 4000] if i >= 0 else ""
         status["last_ops"] = _tail_lines(oplog, 3)
         status["san"] = _san_reports(san_prefix) if flavour != "plain" else []
         if os.path.exists(res_path):
@@ -181,9 +186,12 @@ class Runner:
                 v["count"] += 1
                 if len(v["witnesses"]) < 2:
                     v["witnesses"].append({"report": r["text"][:3500], "last_ops": st["last_ops"]})
+            if crashed and not lib_reports and _faulthandler_lib_frame(st.get("fatal") or st["stderr_tail"]) is False:
+                inconclusive.append("shard %d (%s) crashed outside the library: %s" % (st["shard"], kind, st["stderr_tail"][-600:]))
+                crashed = False
             if crashed and not lib_reports:
                 signame = signal.Signals(-rc).name
-                frame = _faulthandler_lib_frame(st["stderr_tail"])
+                frame = _faulthandler_lib_frame(st.get("fatal") or st["stderr_tail"])
                 key = "crash:%s:%s" % (signame, frame or "?")
                 v = violations.setdefault(key, {"what": "process died with %s during %s" % (signame, st["last_ops"][-1:] or "?"),
                                                 "count": 0, "witnesses": [], "spec": spec})
@@ -194,6 +202,16 @@ class Runner:
                 inconclusive.append("shard %d: sanitizer report without library frame: %s"
                                     % (st["shard"], st["san"][0]["text"][:500]))
             if res is None:
+                continue
+            if spec.get("foreign"):
+                # borrowed workload: its functional verdicts belong to its own property
+                counters["foreign_evaluations"] = counters.get("foreign_evaluations", 0) + res.get("evaluations", 0)
+                counters["foreign_shards:" + spec.get("module", "?")] = counters.get("foreign_shards:" + spec.get("module", "?"), 0) + 1
+                evaluations += res.get("evaluations", 0)
+                pk = per_kind.setdefault("foreign:" + spec.get("module", "?"), {"shards": 0, "evaluations": 0, "wall_s": 0})
+                pk["shards"] += 1
+                pk["evaluations"] += res.get("evaluations", 0)
+                pk["wall_s"] = round(pk["wall_s"] + res.get("wall_s", 0), 1)
                 continue
             if not res.get("ok"):
                 inconclusive.append("shard %d (%s) monitor error: %s\n%s"
@@ -334,10 +352,15 @@ def _tail_lines(path, n):
 
 
 def _faulthandler_lib_frame(stderr):
-    m = re.search(r'File "[^"]*/Crypto/([^"]+)", line \d+ in (\w+)', stderr)
-    if m:
-        return "%s:%s" % (m.group(1), m.group(2))
-    return None
+    """Innermost Python frame of the faulting thread, if it is inside the library ("<file>:<function>").
+    Returns None when no stack was printed, False when the crash happened in a frame OUTSIDE the library
+    (e.g. the stdlib's crypt module under a sanitizer preload): such a crash is not attributed to the library."""
+    m = re.search(r'(?:Current thread|Stack)[^\n]*\(most recent call first\):\n\s*File "([^"]+)", line \d+ in (\S+)', stderr)
+    if not m:
+        return None
+    if "/Crypto/" not in m.group(1):
+        return False
+    return "%s:%s" % (m.group(1).split("/Crypto/")[-1], m.group(2))
 
 
 def main(argv):
